@@ -201,14 +201,16 @@ def run(ctx):
     pk = rm.defs.get('_pack_digits')
     if jd is None or up is None or pk is None:
         raise AnalysisError('ResultDict JSON functions vanished')
-    dicts = [d for d in ast.walk(jd) if isinstance(d, ast.Dict) and any(isinstance(k, ast.Constant) and k.value == 'packed_digits' for k in d.keys)]
+    # the writer: _json_dict_ itself or a module-level helper it calls per record (`_packed_record(digits)`)
+    jd_scope = [jd] + [rm.defs[c.func.id] for c in ast.walk(jd) if isinstance(c, ast.Call) and isinstance(c.func, ast.Name) and isinstance(rm.defs.get(c.func.id), ast.FunctionDef)]
+    dicts = [d for f_ in jd_scope for d in ast.walk(f_) if isinstance(d, ast.Dict) and any(isinstance(k, ast.Constant) and k.value == 'packed_digits' for k in d.keys)]
     if not dicts:
         raise AnalysisError('ResultDict._json_dict_: packed record literal vanished')
     wkeys = {k.value: v for k, v in zip(dicts[0].keys, dicts[0].values)}
     ukeys = func_params(up)
     ok = set(wkeys) == set(ukeys)
     ctx.ob('C18.b', f'{rd.qual}._json_dict_:record-fields', ok, '' if ok else f'writer fields {sorted(wkeys)} != _unpack_digits parameters {sorted(ukeys)}', rm.rel, dicts[0].lineno)
-    unpack = [n for n in ast.walk(jd) if isinstance(n, ast.Assign) and isinstance(n.value, ast.Call) and call_name(n.value) == '_pack_digits']
+    unpack = [n for f_ in jd_scope for n in ast.walk(f_) if isinstance(n, ast.Assign) and isinstance(n.value, ast.Call) and call_name(n.value) == '_pack_digits']
     ok = bool(unpack) and isinstance(unpack[0].targets[0], ast.Tuple) and len(unpack[0].targets[0].elts) == 2
     if ok:
         pd_, bn = [e.id for e in unpack[0].targets[0].elts]
@@ -403,9 +405,20 @@ def _histogram_rule(ctx, repo, rm):
                 tgt, val = st.target, st.value
             if isinstance(tgt, ast.Name) and isinstance(val, ast.Call) and call_name(val) == 'Counter':
                 counters.add(tgt.id)
+        # a plain dict that is returned (as it is, or wrapped in Counter(...)) is an accumulator too - one whose update() overwrites
+        returned = {x.id for r in ast.walk(fn) if isinstance(r, ast.Return) and r.value is not None for x in ast.walk(r.value) if isinstance(x, ast.Name)}
+        plain = set()
+        for st in ast.walk(fn):
+            tgt = val = None
+            if isinstance(st, ast.Assign) and len(st.targets) == 1:
+                tgt, val = st.targets[0], st.value
+            elif isinstance(st, ast.AnnAssign) and st.value is not None:
+                tgt, val = st.target, st.value
+            if isinstance(tgt, ast.Name) and tgt.id in returned and ((isinstance(val, ast.Dict) and not val.keys) or (isinstance(val, ast.Call) and call_name(val) == 'dict' and not val.args)):
+                plain.add(tgt.id)
         loops = [l for l in ast.walk(fn) if isinstance(l, (ast.For, ast.While))]
         found = False
-        for c in sorted(counters):
+        for c in sorted(counters | plain):
             bad = []
             adds = 0
             for l in loops:
@@ -425,7 +438,10 @@ def _histogram_rule(ctx, repo, rm):
                                 bad.append(ast.unparse(st))
                     elif isinstance(st, ast.Call) and isinstance(st.func, ast.Attribute) and isinstance(st.func.value, ast.Name) and st.func.value.id == c:
                         if st.func.attr == 'update':
-                            adds += 1
+                            if c in plain:
+                                bad.append(ast.unparse(st)[:60] + ' (dict.update overwrites)')
+                            else:
+                                adds += 1
                         elif st.func.attr in ('subtract', 'clear', 'pop', 'setdefault'):
                             bad.append(ast.unparse(st))
             if adds or bad:
@@ -498,6 +514,18 @@ def _axis_rule(ctx, repo, rm, rd):
         got = []
         for l in [x for x in ast.walk(fn3) if isinstance(x, ast.For)]:
             it.run(l.body, on_store=lambda st, t, tv, it_: got.append(it_.ev(st.value)))
+        if not got:
+            # the comprehension form: {key: <concatenation> for ... in <views of the two record tables>}
+            for dc in [x for x in ast.walk(fn3) if isinstance(x, ast.DictComp) and any(isinstance(c_, ast.Call) and call_name(c_).split('.')[-1] in ('append', 'concatenate', 'vstack') for c_ in ast.walk(x.value))]:
+                env = {}
+                for g in dc.generators:
+                    if 'records' in ast.unparse(g.iter):
+                        for t in ast.walk(g.target):
+                            if isinstance(t, ast.Name):
+                                env[t.id] = Arr(RIQ)
+                if env:
+                    it = AxisInterp(env, hook=hook)
+                    got.append(it.ev(dc.value))
         if not got:
             raise Unknown('no concatenated record stored')
         axes_ = [e[1] for e in it.events if e[0] == 'concat-axis']
